@@ -39,10 +39,13 @@ LEVEL_TEXT = ('Proved in Lean (Signac/Properties/C13.lean) for an executable mod
     'update) that only the destination has are untouched, also by failed runs (sync_dst_only_*). The model is compared with the '
     'real Project.sync / Job.sync / sync_projects / sync_jobs on every generated project pair, every call made twice; the direct '
     'oracle states the postcondition on byte snapshots.')
-LEVEL_NOTE = ("Idempotence ('repeating the same sync changes nothing') is proved for the recursive file walk (sync_idempotent_files) and "
-    'for job syncs without document merge (sync_idempotent_partial); the rest (ByKey / update merges, clone-then-sync at the '
-    'project level) is NOT proved: kept as the Prop sync_idempotent_full and checked only empirically (every real call is '
-    'repeated; model compared with the second call). The model has the behaviour '
+LEVEL_NOTE = ("Idempotence ('repeating the same sync changes nothing') is proved in full (sync_idempotent_full_partial: every entry point, "
+    'file strategy, document strategy and key selector, no hypothesis on clocks or mtimes) under SyncHyp = the source documents have '
+    'distinct keys at every depth and the document pattern matches the document files (both hold for every real call); layers '
+    'doc_merge_idempotent, doc_sync_idempotent, sync_job_idempotent_partial, sync_clone_fixed_point, '
+    'sync_project_idempotent_partial. The literal statement without SyncHyp is refuted in the model by two artefact witnesses '
+    '(repeated document key; a document pattern matching nothing with a clock behind the mtimes). Every real call is still '
+    'repeated and the model compared with the second call. The model has the behaviour '
     'of the code WITH the proposed fixes F-13, F-14a, F-15a-g (proposed/*.md); on the unchanged tree the cases in those classes '
     'are carved out of the correspondence (known_class) and judged by the oracle alone. Hypotheses: directory listings have '
     'distinct names (WFEntries); jobs with equal id have equal state point bytes (C01/C02). Trusted: Lean kernel + axioms '
